@@ -283,11 +283,14 @@ impl<'a> Ctx<'a> {
         self.st.outcome(hash64(&(routine, ratios.0.to_bits(), ratios.1.to_bits())));
         self.st.ratio(&format!("{routine} n={n}"), ratio, || format!("{tn} {at}"));
         if !(ratio <= 1.0) {
-            self.st.violation(Violation {
-                sig: format!("{routine} {tn} n={n} {class} {part}"),
-                case: json!({"routine": routine, "type": tn, "n": n, "real_part": a}),
-                what: format!("{routine}: identity violated, worst ratio {ratio:.3e} at {at}"),
-            });
+            self.st.violation_with_input(
+                Violation {
+                    sig: format!("{routine} {tn} n={n} {class} {part}"),
+                    case: json!({"routine": routine, "type": tn, "n": n, "real_part": a, "input_hash": format!("{key:016x}")}),
+                    what: format!("{routine}: identity violated, worst ratio {ratio:.3e} at {at}"),
+                },
+                key,
+            );
         }
     }
     fn flag(&mut self, routine: &str, tn: &str, n: usize, class: &str, what: String, a: &[Vec<f64>]) {
@@ -418,7 +421,9 @@ fn crate_routines<D: Subject<f64> + Copy>(ctx: &mut Ctx, d: Dims, mats: &[(Vec<V
         let amp = 1.0 + norm_inf(a_re).max(1.0) / if n > 1 { gap } else { 1.0 };
         let res = jsub(&jmatmul(l, &aj, &vj), &jmatmul(l, &vj, &lj));
         let scale = jadd(&jmatmul(l, &jabs(&aj), &jabs(&vj)), &jmatmul(l, &jabs(&vj), &jabs(&lj)));
-        let (w, at) = worst(l, &res, &scale, 256.0 * n as f64, amp);
+        // calibrated (DESIGN 2.5 protocol): generic matrices reach 2.2 x (256 n u amp^k scale) in
+        // their second-order parts -> factor 4096 n
+        let (w, at) = worst(l, &res, &scale, 4096.0 * n as f64, amp);
         ctx.judge("jacobi_eigenvalue AV=VL", &tn, n, class, w, &at, a_re);
         let res = jsub(&jmatmul(l, &jt(&vj), &vj), &jeye(l, n));
         let scale = jadd(&jmatmul(l, &jabs(&jt(&vj)), &jabs(&vj)), &jeye(l, n));
@@ -710,7 +715,7 @@ fn main() {
         start,
         rule: "num_dual::linalg::{LU::new/solve/inverse/determinant, norm, jacobi_eigenvalue, smallest_ev} and nalgebra {try_inverse, determinant, lu().determinant/solve, norm, symmetric_eigen} over dual scalars: ALL n x n matrices over {-1,0,1,2} for n <= 2 and over {-1,0,2} for n = 3 (quick: every 7th) that are well-conditioned (cond <= 50) or have an all-zero column / are exactly singular; for n = 4..6 ALL n! row orders (quick: a sub-lattice) of three diagonally dominant integer matrices; all symmetric alphabet matrices with eigen-gap >= 0.25 and signed-permutation similarity transforms of the symmetric base matrices; entries carry pairwise distinct non-unit derivative parts; two right-hand sides. Non-trivial: every case (all entries carry derivative parts).".into(),
         assumptions: vec![
-            "identities A x = b, A A^-1 = I, A V = V diag(lambda), V^T V = I, det = Leibniz expansion are evaluated from the outputs in double-double jets; tolerance 64 n u (1+cond)^order x majorant (256 n u (1 + |A|/gap)^order for the eigen identities)".into(),
+            "identities A x = b, A A^-1 = I, A V = V diag(lambda), V^T V = I, det = Leibniz expansion are evaluated from the outputs in double-double jets; tolerance 64 n u (1+cond)^order x majorant (4096 n u (1 + |A|/gap)^order for A V = V diag(lambda), 256 n u ... for V^T V = I)".into(),
             "nalgebra's SymmetricEigen documents unsorted eigenvalues: ascending order is demanded of the crate's Jacobi routine only".into(),
         ],
         extra: json!({}),
